@@ -179,8 +179,8 @@ theorem grows_appCall_unused (cs : List (String × List String)) : Grows (appCal
 theorem grows_copyOp (d s : String) (g : Bool) : Grows (copyOp d s g) := by
   unfold copyOp
   refine grows_bind_r simple_get.mono (fun _ => grows_bind_l (grows_addLine _) (fun _ => ?_))
-  refine Simple.mono (simple_bind _ _ ?_ (fun _ => simple_bind _ _ simple_nextHelperVar (fun _ => simple_bind _ _ simple_get (fun _ =>
-      simple_bind _ _ (simple_varAssignment _ _ _) (fun _ => simple_bind _ _ simple_get (fun _ => simple_pure _))))))
+  refine Simple.mono (simple_bind _ _ ?_ (fun _ => simple_bind _ _ simple_nextHelperVar (fun _ =>
+      simple_bind _ _ (simple_varAssignSliceLen _ _ _) (fun _ => simple_bind _ _ simple_get (fun _ => simple_pure _)))))
   apply simple_modify_flags; intro s; simp
 
 theorem grows_inputOp (p : String) : Grows (inputOp p) := by
